@@ -368,6 +368,21 @@ def r6(ctx):
     overlap_boundary(sub)
     for o in sub.obligations:
         ctx.ob("R6", o["key"].split(":", 1)[1], o["ok"], o["detail"], where=o["where"], nontrivial=o.get("nontrivial", True))
+    # what --update-all writes for a file is ONE payload holding every edit of that file (the C18 obligations on how the scan result is
+    # turned into payloads); a second payload for the same file overwrites edits that --json, the library and the LSP still propose
+    from . import c18
+    sub18 = ctx.prog.__dict__.get("_c18_sub")
+    if sub18 is None:
+        sub18 = Ctx("C18", ctx.tier, ctx.prog)
+        c18.run(sub18)
+        ctx.prog.__dict__["_c18_sub"] = sub18
+    n18 = 0
+    for o in sub18.obligations:
+        k = o["key"].split(":", 1)[1]
+        if k.startswith(("unused-suppression edits join", "diffs stay ordered", "match_rule_diff_on_file keeps")):
+            n18 += 1
+            ctx.ob("R6", k, o["ok"], o["detail"], where=o["where"], nontrivial=o.get("nontrivial", True))
+    ctx.floor("R6", "payload-construction obligations shared with C18", n18, 3)
 
 
 from ..query import TRANSPARENT
